@@ -1,3 +1,4 @@
+import os
 """Per-property obligations: which harness is driven over which cubes with which bounds.
 
 A cube concretises the *shape* dimension (edge list / option set / history); everything else stays
@@ -930,17 +931,18 @@ REG["C19"] = C19
 
 
 def C20(tier):
+    CR = 1000  # coefficient range of the cubic root-finder obligations
     obs = [dict(name="rootfinder-linear-quadratic", pkg="internal/geom", func="Harness_C20_solve2", consts={"UNIQ": 1}, cubes=[{}], solver="z3-new", oneshot=True,
                 qworkers=8, qtimeout=200, validate_cubes=0,
                 bounds="solve2/solve1: coefficients symbolic reals in [-8,8], candidate root in [-1000,1000]; exact real arithmetic (sqrt by its defining equation); "
                        "relative to the code's epsilon design (|a| < 1e-7 treated as 0)"),
-           dict(name="rootfinder-cubic-cardano", pkg="internal/geom", func="Harness_C20_solve3", consts={"UNIQ": 1}, cubes=[{}], solver="z3-new", oneshot=True,
+           dict(name="rootfinder-cubic-cardano", pkg="internal/geom", func="Harness_C20_solve3", consts={"UNIQ": 1, "CRANGE": CR}, cubes=[{}], solver="z3-new", oneshot=True,
                 qworkers=8, qtimeout=nm(tier == "quick", 200, 600), validate_cubes=0,
-                bounds="solve3 with non-vanishing leading coefficient and discriminant >= 0 (Cardano branch): coefficients symbolic reals in [-4,4]; "
+                bounds="solve3 with non-vanishing leading coefficient and discriminant >= 0 (Cardano branch): coefficients symbolic reals in [-1000,1000], candidate root (uniqueness / completeness) in [-1000,1000]; "
                        "sqrt/cbrt by their defining equations; the trigonometric branch (disc < 0) is outside")]
-    obs.append(dict(name="rootfinder-cubic-trig", pkg="internal/geom", func="Harness_C20_solve3trig", consts={"AFIX": 0, "BFIX": 0, "ANUM": 1, "ADEN": 1, "BNUM": 0, "BDEN": 1},
+    obs.append(dict(name="rootfinder-cubic-trig", pkg="internal/geom", func="Harness_C20_solve3trig", consts={"CRANGE": CR, "AFIX": 0, "BFIX": 0, "ANUM": 1, "ADEN": 1, "BNUM": 0, "BDEN": 1},
                     cubes=[{"REGION": r} for r in (0, 1, 2, 3)], solver="z3-new", oneshot=True, qworkers=8, qtimeout=nm(tier == "quick", 200, 600), validate_cubes=0,
-                    bounds="solve3 with non-vanishing leading coefficient and discriminant < 0 (trigonometric branch): coefficients symbolic reals in [-4,4] (cube 0: whole domain; "
+                    bounds="solve3 with non-vanishing leading coefficient and discriminant < 0 (trigonometric branch): coefficients symbolic reals in [-1000,1000] (cube 0: whole domain; "
                            "cubes 1-3: the same claim restricted to q > 0, q < 0, q = 0 so that a counterexample confined to one quadrant of the angle is the model returned); "
                            "cos((atan2(y,x)+2k*pi)/3) by the triple-angle identity and its branch interval, sqrt/cbrt by their defining equations"))
     B = ("real curveIntersects (MODE 1: + curveContained) on a concrete control polygon and one barrier with symbolic real end points in [-8,8]; a symbolic parameter t in [0,1] "
